@@ -16,6 +16,15 @@ tie    : T  translate/t_proj.py regenerates coq/gen/Proj.v from methods/*.hpp, m
             row is P^T (x_i - m), projection(x_i) reproduces row i, projection is affine on convex
             combinations, projection(q) = P^T (q - m) on unseen q; (iii) the other fifteen methods
             return a null implementation.
+         Wave 2 — the property quantifies over ALL feature data, so every stream is also run
+            * at BOUNDARY SIZES where implementations block / vectorise (N in 255, 256, 257, 512, ...; D and d
+              around 8, 16, 32), on the exact stream (project() against the model) and through the public API;
+            * as SCALED COPIES (data * 2^k, k in [-60, 60]; on the exact stream also P * 2^j): the model is
+              scale-equivariant (theorems C07_scale_equivariant / C07_tail_scale_equivariant), power-of-two
+              scaling is exact in binary64, and every tolerance is RELATIVE to the data scale (no absolute floor);
+            * with MIXED MAGNITUDES on the exact stream (mean tiny against the data and vice versa);
+            * over NON-IDENTITY ITERATOR RANGES (offset blocks, permutations, subsets of a larger data set with
+              decoy samples): row k belongs to sample ids[k] (theorem C07_project_over_index_range).
 search : when an obligation or the correspondence breaks, a larger budget of public-API cases is run
          through the same decision procedures.
 """
@@ -154,6 +163,146 @@ def gen_internal(rng, n_each):
     return cases
 
 
+BOUNDARY_N_QUICK = [255, 256, 257, 512]
+BOUNDARY_N_THOROUGH = [127, 128, 129, 255, 256, 257, 511, 512, 513, 768, 1023, 1024, 1025, 2048]
+BOUNDARY_D = [7, 8, 9, 15, 16, 17, 31, 32, 33]
+
+
+def train(c):
+    """the training samples in the order of the iterator range [begin, end)"""
+    if c.get("ids") is not None:
+        return [c["X"][i] for i in c["ids"]]
+    return c["X"]
+
+
+def with_ids(rng, c, how=None):
+    """the same training samples, handed over as a NON-IDENTITY iterator range into a larger data set:
+    X becomes an M-row data set (decoy rows elsewhere), ids[k] = where training sample k lives"""
+    X = c["X"]
+    N = len(X)
+    if N == 0 or c.get("ids") is not None:
+        return c
+    how = how or rng.choice(["offset", "perm", "subset", "reversed"])
+    if how == "offset":
+        a, b = rng.randint(1, 3), rng.randint(0, 2)
+        M, ids = N + a + b, list(range(a, a + N))
+    elif how == "perm":
+        M, ids = N, list(range(N))
+        rng.shuffle(ids)
+        if N > 1 and ids == list(range(N)):
+            ids = ids[1:] + ids[:1]
+    elif how == "reversed":
+        M, ids = N + 1, list(range(N, 0, -1))
+    else:
+        M = N + rng.randint(1, 4)
+        ids = rng.sample(range(M), N)
+    D = len(X[0])
+    big = maxabs(X) or Fraction(1)
+    unit = Fraction(1)
+    while unit > big:            # a power of two not above the data scale: decoys stay exact and visible
+        unit /= 2
+    Xall = [None] * M
+    for k, i in enumerate(ids):
+        Xall[i] = X[k]
+    for i in range(M):
+        if Xall[i] is None:
+            src = X[rng.randrange(N)]
+            Xall[i] = [v + unit * rng.choice([-2, -1, 1, 2]) for v in src]
+    return dict(c, X=Xall, M=M, ids=ids, range=how)
+
+
+def scaled_copy(c, k, j=0):
+    """data (and queries / mean) times 2^k, an input matrix P times 2^j: exact in binary64"""
+    s, t = Fraction(2) ** k, Fraction(2) ** j
+    cc = dict(c)
+    for key in ("X", "Q"):
+        if key in cc:
+            cc[key] = [[v * s for v in row] for row in cc[key]]
+    for key in ("m", "x"):
+        if key in cc:
+            cc[key] = [v * s for v in cc[key]]
+    if "P" in cc:
+        cc["P"] = [[v * t for v in row] for row in cc["P"]]
+    cc["scale_log2"] = c.get("scale_log2", 0) + k
+    if j:
+        cc["pscale_log2"] = j
+    return cc
+
+
+def rand_scale(rng):
+    return rng.choice([-60, -52, -45, -40, -30, -10, 10, 30, 40, 52, 60])
+
+
+def gen_mixed(rng, n_each):
+    """exact stream, MIXED magnitudes: one of (mean, data) is tiny against the other (2^-41..2^-44 against
+    small integers).  P has entries 0, +-1/2, +-1, +-2, D <= 4: every intermediate of P^T (x - m), in any
+    summation order, is a multiple of 2^-45 below 2^7, hence exact in binary64."""
+    cases = []
+    tiny = lambda: rng.choice([-1, 1]) * Fraction(1, 2 ** rng.randint(41, 44)) if rng.random() < 0.85 else Fraction(0)
+    small = lambda: Fraction(rng.randint(-8, 8))
+    pent = lambda: rng.choice([0, 1, -1, 2, -2, Fraction(1, 2), Fraction(-1, 2)])
+    for j in range(n_each):
+        D = rng.choice([1, 2, 3, 4])
+        d = rng.randint(1, 2)
+        P = [[Fraction(pent()) for _ in range(d)] for _ in range(D)]
+        tiny_mean = j % 2 == 0
+        m = [tiny() if tiny_mean else small() for _ in range(D)]
+        mk = (lambda: [small() for _ in range(D)]) if tiny_mean else (lambda: [tiny() for _ in range(D)])
+        style = "tiny-mean" if tiny_mean else "tiny-data"
+        cases.append({"kind": "MPI", "D": D, "d": d, "P": P, "m": m, "x": mk(), "style": style, "exact": True})
+        N = rng.choice([1, 2, 3, 5])
+        cases.append({"kind": "PROJ", "D": D, "d": d, "N": N, "P": P, "m": m, "X": [mk() for _ in range(N)],
+                      "style": style, "exact": True})
+    for j in range(max(1, n_each // 2)):
+        D = rng.choice([1, 2, 3])
+        N = rng.choice([2, 4, 8, 16])
+        X = [[small() + tiny() for _ in range(D)] for _ in range(N)]
+        cases.append({"kind": "MEAN", "D": D, "N": N, "X": X, "style": "int+tiny", "exact": True})
+    return cases
+
+
+def gen_boundary_internal(rng, sizes, quick):
+    """exact stream at the sizes where loops are typically blocked / unrolled / vectorised"""
+    cases = []
+    for N in sizes:
+        D = rng.choice([1, 2, 3])
+        d = rng.randint(1, 2)
+        style = rng.choice(["int", "dyadic"])
+        c = {"kind": "PROJ", "D": D, "d": d, "N": N, "P": gen_matrix(rng, D, d, "dyadic"),
+             "m": gen_matrix(rng, 1, D, style)[0], "X": gen_matrix(rng, N, D, style), "style": style, "exact": True}
+        cases.append(c)
+        cases.append(with_ids(rng, dict(c, X=gen_matrix(rng, N, D, style)), rng.choice(["offset", "perm"])))
+        cases.append({"kind": "MEAN", "D": D, "N": N, "X": gen_matrix(rng, N, D, style), "style": style,
+                      "exact": N & (N - 1) == 0})
+    for D in (BOUNDARY_D if not quick else rng.sample(BOUNDARY_D, 4)):
+        d = rng.choice([1, 2, 4, 8, 9, 16, 17])
+        N = rng.choice([1, 3, 4])
+        style = rng.choice(["int", "dyadic"])
+        P = gen_matrix(rng, D, d, "dyadic")
+        m = gen_matrix(rng, 1, D, style)[0]
+        cases.append({"kind": "PROJ", "D": D, "d": d, "N": N, "P": P, "m": m, "X": gen_matrix(rng, N, D, style),
+                      "style": style, "exact": True})
+        cases.append({"kind": "MPI", "D": D, "d": d, "P": P, "m": m, "x": gen_matrix(rng, 1, D, style)[0],
+                      "style": style, "exact": True})
+        cases.append({"kind": "MEAN", "D": D, "N": 4, "X": gen_matrix(rng, 4, D, style), "style": style, "exact": True})
+    return cases
+
+
+def gen_boundary_emb(rng, meth, N):
+    """public API at a boundary size: small D (cheap), one unseen vector and one affine combination"""
+    D = rng.choice([1, 2, 3])
+    d = rng.randint(1, D)
+    style = rng.choice(["int", "dyadic", "offset", "generic"])
+    X = gen_matrix(rng, N, D, style)
+    k = 8
+    if meth in NEIGHBOUR_BASED:
+        D, d, style = 3, rng.randint(1, 2), "generic"
+        X = gen_matrix(rng, N, D, style)
+    Q, combos = gen_queries(rng, X, 1, 1)
+    return {"kind": "EMB", "method": meth, "solver": "dense", "N": N, "D": D, "d": d, "k": k, "X": X, "Q": Q,
+            "combos": combos, "style": style, "boundary": True}
+
+
 def gen_queries(rng, X, nq_unseen, nq_comb):
     """unseen vectors + dyadic affine combinations a x_i + (1-a) x_j (a may leave [0,1])"""
     N, D = len(X), len(X[0])
@@ -234,6 +383,16 @@ def case_from_json(j):
 
 def impl_line(c):
     nums = lambda l: " ".join(float(x).hex() for x in l)
+    if c.get("ids") is not None:
+        ids = "%d %s" % (c["M"], " ".join(str(i) for i in c["ids"]))
+        if c["kind"] == "MEAN":
+            return "MEANI %d %d %s %s" % (c["D"], c["N"], ids, nums(flat(c["X"])))
+        if c["kind"] == "PROJ":
+            return "PROJI %d %d %d %s %s %s %s" % (c["D"], c["d"], c["N"], ids, nums(flat(c["P"])), nums(c["m"]),
+                                                   nums(flat(c["X"])))
+        if c["kind"] == "EMB":
+            return "EMBI %s %s %d %d %d %d %d %s %s %s" % (c["method"], c["solver"], c["N"], c["D"], c["d"], c["k"],
+                                                         len(c["Q"]), ids, nums(flat(c["X"])), nums(flat(c["Q"])))
     if c["kind"] == "MEAN":
         return "MEAN %d %d %s" % (c["D"], c["N"], nums(flat(c["X"])))
     if c["kind"] == "PROJ":
@@ -247,6 +406,13 @@ def impl_line(c):
 
 def model_line(c):
     nums = lambda l: " ".join(fr_hex(x) for x in l)
+    if c.get("ids") is not None:
+        ids = "%d %s" % (c["M"], " ".join(str(i) for i in c["ids"]))
+        if c["kind"] == "MEAN":
+            return "MEANI %d %d %s %s" % (c["D"], c["N"], ids, nums(flat(c["X"])))
+        if c["kind"] == "PROJ":
+            return "PROJI %d %d %d %s %s %s %s" % (c["D"], c["d"], c["N"], ids, nums(flat(c["P"])), nums(c["m"]),
+                                                   nums(flat(c["X"])))
     if c["kind"] == "MEAN":
         return "MEAN %d %d %s" % (c["D"], c["N"], nums(flat(c["X"])))
     if c["kind"] == "PROJ":
@@ -339,6 +505,17 @@ def scale_tol(*mats):
     return big
 
 
+def maxabs(*mats):
+    """largest magnitude, NO floor: tolerances built on it are relative to the data scale"""
+    big = Fraction(0)
+    for M in mats:
+        for row in M:
+            for v in row:
+                if abs(v) > big:
+                    big = abs(v)
+    return big
+
+
 TOL_REL = Fraction(1, 10 ** 11)
 
 
@@ -404,14 +581,15 @@ def evaluate(ctx, exe, mexe, cases, st, record=True):
             c["_impl"] = got
             model_lines.append(model_line(c))
             model_owner.append(i)
-            tol = Fraction(0) if c["exact"] else TOL_REL * scale_tol(c["X"]) * c["N"]
+            Xt = train(c) if c["kind"] != "MPI" else None
+            tol = Fraction(0) if c.get("exact", True) else TOL_REL * maxabs(Xt) * c["N"]
             if c["kind"] == "MEAN":
                 if got[0] != c["D"]:
                     viol(i, "compute_mean returned %d entries for dimension %d" % (got[0], c["D"]))
                     continue
                 m = [row[0] for row in got[2]]
                 spec_lines.append("SMEA %d %d %s %s %s" % (c["N"], c["D"], fr_hex(tol),
-                                                          " ".join(fr_hex(x) for x in flat(c["X"])),
+                                                          " ".join(fr_hex(x) for x in flat(Xt)),
                                                           " ".join(fr_hex(x) for x in m)))
                 spec_owner.append((i, "compute_mean is not the arithmetic mean of the samples"))
             elif c["kind"] == "PROJ":
@@ -421,9 +599,11 @@ def evaluate(ctx, exe, mexe, cases, st, record=True):
                 for rix, row in enumerate(got[2]):
                     spec_lines.append("SPRJ %d %d 0 %s %s %s %s" % (
                         c["D"], c["d"], " ".join(fr_hex(x) for x in flat(c["P"])),
-                        " ".join(fr_hex(x) for x in c["m"]), " ".join(fr_hex(x) for x in c["X"][rix]),
+                        " ".join(fr_hex(x) for x in c["m"]), " ".join(fr_hex(x) for x in Xt[rix]),
                         " ".join(fr_hex(x) for x in row)))
-                    spec_owner.append((i, "row %d of project(P, m, X) is not P^T (x_%d - m)" % (rix, rix)))
+                    spec_owner.append((i, "row %d of project(P, m, [begin, end)) is not P^T (x - m) for the sample "
+                                          "the iterator range names at position %d%s" % (
+                                              rix, rix, "" if c.get("ids") is None else " (sample id %d)" % c["ids"][rix])))
             else:
                 if got[0] != c["d"]:
                     viol(i, "MatrixProjectionImplementation::project returned %d entries, expected %d" % (got[0], c["d"]))
@@ -482,16 +662,18 @@ def evaluate(ctx, exe, mexe, cases, st, record=True):
                 meth, emb[0], emb[1], P[0], P[1], m[0], pi[0], pi[1], N, D, d))
             continue
         mv = [row[0] for row in m[2]]
-        scale = scale_tol(P[2]) * (scale_tol(c["X"], c["Q"] or [[0]]) + scale_tol([mv])) * D
+        Xt = train(c)
+        # forward-error shaped and RELATIVE to the data scale (no absolute floor: data may live at 2^-60)
+        scale = maxabs(P[2]) * (maxabs(Xt, c["Q"] or [[0]]) + maxabs([mv])) * D
         tol = TOL_REL * scale
         c["_tol"] = tol
-        xs = " ".join(fr_hex(x) for x in flat(c["X"]))
+        xs = " ".join(fr_hex(x) for x in flat(Xt))
         ps = " ".join(fr_hex(x) for x in flat(P[2]))
         ms = " ".join(fr_hex(x) for x in mv)
         # m is the training mean (exactly when the sums and the division are exact in binary64)
         pow2 = N & (N - 1) == 0
         exact_mean = pow2 and c["style"] in ("int", "dyadic", "ties", "offset")
-        mtol = Fraction(0) if exact_mean else TOL_REL * scale_tol(c["X"]) * N
+        mtol = Fraction(0) if exact_mean else TOL_REL * maxabs(Xt) * N
         spec_lines.append("SMEA %d %d %s %s %s" % (N, D, fr_hex(mtol), xs, ms))
         spec_owner.append((i, "%s: the mean stored in the returned projection is not the mean of the training "
                               "samples%s" % (meth, " (exact stream)" if exact_mean else "")))
@@ -509,8 +691,10 @@ def evaluate(ctx, exe, mexe, cases, st, record=True):
             if bad:
                 break
         if bad:
-            viol(i, "%s: projection(x_%d) = %s differs from embedding.row(%d) = %s" % (
-                meth, bad[0], [float(v) for v in pi[2][bad[0]]], bad[0], [float(v) for v in emb[2][bad[0]]]))
+            viol(i, "%s: projection(x_%d) = %s differs from embedding.row(%d) = %s (tolerance %.3g, data scale %.3g%s)" % (
+                meth, bad[0], [float(v) for v in pi[2][bad[0]]], bad[0], [float(v) for v in emb[2][bad[0]]],
+                float(tol), float(maxabs(Xt)),
+                "" if c.get("ids") is None else "; iterator range position %d = sample id %d" % (bad[0], c["ids"][bad[0]])))
             continue
         if pi[2] == emb[2]:
             st.bitwise_pi += 1
@@ -550,10 +734,10 @@ def evaluate(ctx, exe, mexe, cases, st, record=True):
             continue
         mv = [parse_fr(t) for t in w[1:]]
         iv = flat(c["_impl"][2])
-        if c["exact"]:
+        if c.get("exact", True):
             same = mv == iv
         else:
-            tol = TOL_REL * scale_tol(c["X"])
+            tol = TOL_REL * maxabs(train(c))
             same = len(mv) == len(iv) and all(abs(x - y) <= tol for x, y in zip(mv, iv))
         if not same and verdicts[i] != "violation":
             verdicts[i] = "mismatch"
@@ -583,15 +767,19 @@ def shrink_emb(ctx, exe, mexe, c):
     if best["method"] not in NEIGHBOUR_BASED:
         lo = best["d"] + 1
         rows = list(range(best["N"]))
+        def sub_case(sub):
+            if best.get("ids") is not None:     # shrink the iterator range, keep the data set
+                return dict(best, ids=[best["ids"][r] for r in sub], N=len(sub), Q=[], combos=[])
+            return dict(best, X=[best["X"][r] for r in sub], N=len(sub), Q=[], combos=[])
+
         def f(sub):
             if len(sub) < lo:
                 return False
-            cand = dict(best, X=[best["X"][r] for r in sub], N=len(sub), Q=[], combos=[])
-            return fails(cand)
+            return fails(sub_case(sub))
         if not best["Q"]:
             sub = vlib.shrink_list(rows, f, max_steps=40)
             if len(sub) < best["N"] and f(sub):
-                best = dict(best, X=[best["X"][r] for r in sub], N=len(sub))
+                best = sub_case(sub)
     return best
 
 
@@ -632,6 +820,31 @@ def harness_flags(quick):
     return ["-O0", "-g1", "-fno-sanitize=undefined"] if quick else ["-O0", "-g1"]
 
 
+def bump(hist, key, n=1):
+    hist[key] = hist.get(key, 0) + n
+
+
+def hist_key(c):
+    if c["kind"] == "EMB":
+        base = "api:" + c["method"] if c["method"] in FIVE else "api-nonprojecting"
+    else:
+        base = "internal:" + c["kind"]
+    return base
+
+
+def variants(rng, base, p_ids, p_scaled):
+    """a generated case, possibly moved to a non-identity iterator range, plus (possibly) its scaled copy"""
+    out = []
+    c = base
+    if c["kind"] != "MPI" and c.get("N", 0) >= 2 and rng.random() < p_ids:
+        c = with_ids(rng, c)
+    out.append(c)
+    if rng.random() < p_scaled:
+        j = rng.choice([-20, -7, 0, 0, 9, 20]) if "P" in c else 0
+        out.append(scaled_copy(c, rand_scale(rng), j))
+    return out
+
+
 def build_cases(ctx, quick):
     rng = ctx.rng
     cases, hist = [], {}
@@ -642,16 +855,38 @@ def build_cases(ctx, quick):
         except Exception as ex:            # a corpus file that does not parse is reported, not fatal
             ctx.note("corpus file %s not usable: %s" % (name, ex))
     n_int = 40 if quick else 800
-    internal = gen_internal(rng, n_int)
-    cases += internal
-    for c in internal:
-        hist["internal:" + c["kind"]] = hist.get("internal:" + c["kind"], 0) + 1
+    generated = []
+    # exact stream: plain, mixed magnitudes, boundary sizes; each possibly over a non-identity range, each
+    # (quick: every second one on average, thorough: every one) also as a scaled copy
+    p_scaled = 0.6 if quick else 1.0
+    for c in gen_internal(rng, n_int):
+        generated += variants(rng, c, 0.3, p_scaled)
+    for c in gen_mixed(rng, 8 if quick else 120):
+        generated += variants(rng, c, 0.3, 0.0)          # mixed magnitudes are already scale-specific
+    for c in gen_boundary_internal(rng, BOUNDARY_N_QUICK if quick else BOUNDARY_N_THOROUGH, quick):
+        generated += variants(rng, c, 0.0, 0.5 if quick else 1.0)
+    # public API
     n_emb = {"pca": 16, "rp": 10, "npe": 5, "lltsa": 5, "lpp": 5} if quick else \
             {"pca": 400, "rp": 200, "npe": 80, "lltsa": 80, "lpp": 80}
     for meth, n in n_emb.items():
         for j in range(n):
-            cases.append(gen_emb(rng, meth, "small" if (quick or j % 4) else "large"))
-            hist["api:" + meth] = hist.get("api:" + meth, 0) + 1
+            generated += variants(rng, gen_emb(rng, meth, "small" if (quick or j % 4) else "large"), 0.4, 1.0)
+    for meth in (("pca", "rp") if quick else FIVE):
+        sizes = BOUNDARY_N_QUICK if quick else (BOUNDARY_N_THOROUGH if meth in ("pca", "rp") else [255, 256, 257])
+        for N in sizes:
+            generated += variants(rng, gen_boundary_emb(rng, meth, N), 0.3, 0.5)
+    for c in generated:
+        key = hist_key(c)
+        bump(hist, key)
+        if c.get("ids") is not None:
+            bump(hist, "non-identity-range:" + c.get("range", "?"))
+        if c.get("scale_log2"):
+            bump(hist, "scaled-copy:2^%d" % c["scale_log2"])
+        if c.get("boundary") or (c["kind"] != "EMB" and (c.get("N", 0) >= 127 or c["D"] >= 7)):
+            bump(hist, "boundary-size")
+        if c.get("style") in ("tiny-mean", "tiny-data", "int+tiny"):
+            bump(hist, "mixed-magnitude")
+    cases += generated
     for meth in OTHERS:
         cases.append(gen_other(rng, meth))
         hist["api-nonprojecting"] = hist.get("api-nonprojecting", 0) + 1
@@ -673,8 +908,13 @@ def run(ctx):
         extra = []
         for meth in FIVE:
             for j in range(30 if meth in NEIGHBOUR_BASED else 120):
-                extra.append(gen_emb(ctx.rng, meth, "small" if j % 3 else "large"))
-        extra += gen_internal(ctx.rng, 300)
+                extra += variants(ctx.rng, gen_emb(ctx.rng, meth, "small" if j % 3 else "large"), 0.4, 0.7)
+        for meth in ("pca", "rp"):
+            for N in BOUNDARY_N_THOROUGH:
+                extra += variants(ctx.rng, gen_boundary_emb(ctx.rng, meth, N), 0.3, 0.3)
+        for c in gen_internal(ctx.rng, 300) + gen_mixed(ctx.rng, 60) + \
+                gen_boundary_internal(ctx.rng, BOUNDARY_N_THOROUGH, False):
+            extra += variants(ctx.rng, c, 0.3, 0.7)
         v2 = evaluate(ctx, exe, mexe, extra, st)
         searched = len(extra)
         cases += extra
